@@ -51,6 +51,7 @@ type scenario struct {
 	DelayP     float64 `json:"delayP"`
 	MaxDelayNs int64   `json:"maxDelayNs"`
 	ReadErrAtNs int64  `json:"readErrAtNs"` // inject a socket read error at this time (0 = none)
+	ReCloseAtNs []int64 `json:"reCloseAtNs"` // per accepted conn: Close it once more at this time if it is closed by then (0 = none)
 }
 
 var gaps = []int64{0, 0, 1, 1000, 100000, 1000000, 5000000}
@@ -65,7 +66,7 @@ func gen(r *harn.Rng, tier string) interface{} {
 	for i := 0; i < nr; i++ {
 		var plan []dg
 		for j, n := 0, r.Range(1, 6); j < n; j++ {
-			plan = append(plan, dg{GapNs: gaps[r.Intn(len(gaps))], Len: r.Pick(8, 8, 20, 200, 1400, 8000), Odd: r.Bool(0.3)})
+			plan = append(plan, dg{GapNs: gaps[r.Intn(len(gaps))], Len: r.Pick(8, 8, 20, 200, 1400, 2045, 2046, 2047, 8000), Odd: r.Bool(0.3)})
 		}
 		sc.Remotes = append(sc.Remotes, plan)
 	}
@@ -91,6 +92,13 @@ func gen(r *harn.Rng, tier string) interface{} {
 	}
 	if r.Bool(0.08) {
 		sc.ReadErrAtNs = gaps[2+r.Intn(len(gaps)-2)]
+	}
+	for i := 0; i < 6; i++ {
+		t := int64(0)
+		if r.Bool(0.2) {
+			t = gaps[3+r.Intn(len(gaps)-3)] * int64(r.Pick(1, 2, 3))
+		}
+		sc.ReCloseAtNs = append(sc.ReCloseAtNs, t)
 	}
 	return sc
 }
@@ -203,6 +211,19 @@ func run(env *simrt.Env, sci interface{}) {
 						_ = rec.conn.Close()
 						rec.closeRet = env.Stamp()
 						env.Fault("racy-conn-close")
+					}
+				})
+			}
+			if rec.idx < len(sc.ReCloseAtNs) && sc.ReCloseAtNs[rec.idx] > 0 {
+				at := time.Duration(sc.ReCloseAtNs[rec.idx])
+				env.Go(fmt.Sprintf("recloser%d", rec.idx), func() {
+					if d := at - env.Elapsed(); d > 0 {
+						env.Sleep(d)
+					}
+					if rec.closeRet != 0 {
+						// Close is idempotent: closing a closed connection again changes nothing
+						_ = rec.conn.Close()
+						env.Fault("repeated-conn-close")
 					}
 				})
 			}
@@ -727,6 +748,14 @@ func shrinkSc(sci interface{}) []interface{} {
 			c := *sc
 			c.ConnCloseAtNs = append([]int64(nil), sc.ConnCloseAtNs...)
 			c.ConnCloseAtNs[i] = 0
+			out = append(out, &c)
+		}
+	}
+	for i, k := range sc.ReCloseAtNs {
+		if k != 0 {
+			c := *sc
+			c.ReCloseAtNs = append([]int64(nil), sc.ReCloseAtNs...)
+			c.ReCloseAtNs[i] = 0
 			out = append(out, &c)
 		}
 	}
